@@ -3,7 +3,7 @@ import random, time, warnings
 from . import core, dc, dcsuite, decl, dyn, findings
 
 PID = "C18"
-KINDS = ["list", "optional", "dict", "tuple", "union", "dictf", "dictd", "dictb", "listopt", "dictn"]
+KINDS = ["list", "optional", "dict", "tuple", "union", "dictf", "dictd", "dictb", "listopt", "dictn", "listoo", "dictou"]
 
 
 def gen_cases(rng, n):
@@ -25,7 +25,10 @@ def gen_cases(rng, n):
         optv = kind.endswith("+optv")
         kind = kind.split("+")[0]
         # (in the union kind an empty mapping is also a valid int: the int argument may take a too-deep one)
-        v = dc.tree_input(rng, kind, depth, bad_leaf=rng.random() < 0.15, width=3, empty_leaf=optv and kind != "union")
+        if kind in ("listoo", "dictou"):
+            depth = min(depth, 4)      # unions inside unions multiply the retries per level (the listed cost finding): keep these small
+        v = dc.tree_input(rng, kind, depth, bad_leaf=rng.random() < 0.15, width=2 if kind in ("listoo", "dictou") else 3,
+                          empty_leaf=optv and kind not in ("union", "dictou"))   # (an empty mapping is also a valid int: the int arm may take it)
         if rng.random() < 0.1:
             v = [v]                    # a list wrapping a single mapping is unwrapped by the converter
         ropts = None
@@ -135,6 +138,73 @@ def subject_tie(res):
                                detail="the reflected classes differ from the theorems' declarations: %s\n%s" % (bad, out[-1200:])))
 
 
+
+def cycle_case(i_seed):
+    """cyclic inputs: a mapping that contains itself through the link, and a list / tuple that contains itself standing where a
+    node is expected; with a limit they are rejected with a ParseError, and in bounded time"""
+    import signal
+    from utype.utils import exceptions as exc
+    warnings.simplefilter("ignore")
+    rng = random.Random(i_seed)
+    kind = rng.choice(["list", "optional", "dict", "tuple", "union", "listopt", "listoo", "dictou"])
+    d = rng.randint(1, 4)
+    cls, src = dc.node_class(kind, d, rng.choice(["Schema", "DataClass"]), {})
+    shape = rng.choice(["dict-cycle", "list-self", "tuple-self", "list-self-deep"])
+    wrap = {"list": lambda x: [x], "listopt": lambda x: [x], "listoo": lambda x: [x], "tuple": lambda x: (x,),
+            "dict": lambda x: {"a": x}, "dictou": lambda x: {"a": x}}.get(kind, lambda x: x)
+    if shape == "dict-cycle":
+        node = {"v": 1}
+        node["link"] = wrap(node)
+        data = node
+    else:
+        k = []
+        if shape == "list-self":
+            k.append(k)
+            bad = k
+        elif shape == "tuple-self":
+            t = (k,)
+            k.append(t)
+            bad = t
+        else:
+            k.append([k])
+            bad = k
+        data = {"v": 1, "link": wrap(bad)}
+
+    def on_alarm(*a):
+        raise TimeoutError()
+    signal.signal(signal.SIGALRM, on_alarm)
+    signal.setitimer(signal.ITIMER_REAL, 4.0)
+    try:
+        try:
+            cls.__from__(data)
+            out = "accepted"
+        except exc.ParseError:
+            out = "parse"
+        except TimeoutError:
+            out = "no answer within 4 s (unbounded work)"
+        except RecursionError:
+            out = "RecursionError"
+        except Exception as e:
+            out = "%s: %s" % (type(e).__name__, str(e)[:80])
+    finally:
+        signal.setitimer(signal.ITIMER_REAL, 0)
+    if out != "parse":
+        return "cyclic input (%s through %s, max_depth=%d): %s\n%s" % (shape, kind, d, out, src)
+    return ("parse", kind, shape)
+
+
+def cycles_suite(res, tier, seed):
+    n = 240 if tier == "quick" else 4000
+    outs = core.pool_map(cycle_case, [seed * 3000017 + i for i in range(n)])
+    bad = [o if isinstance(o, str) else "cyclic input: the call did not complete (%r)" % (o,)
+           for o in outs if not (isinstance(o, tuple) and o and o[0] == "parse")]
+    res.add_suite("cyclic-inputs", n, len({o[1:] for o in outs if isinstance(o, tuple) and o and o[0] == "parse"}),
+                  [dict(kind="list", shape="a list that contains itself where a node is expected", expect="ParseError, at once")],
+                  "8 link kinds x max_depth 1..4 x 4 cyclic shapes (mapping through its own link; self-containing list / tuple in a node "
+                  "position): rejected with ParseError within the time limit", dict(failures=len(bad)))
+    for m in bad[:2]:
+        res.violations.append(dict(case=repr(dict(kind="cyclic-inputs")), observed=m, what="a cyclic input is not rejected: " + m.split("\n")[0]))
+
 def main(tier, seed):
     warnings.simplefilter("ignore")
     res = core.Result(PID, tier, seed)
@@ -157,6 +227,7 @@ def main(tier, seed):
             res.violations.append(dict(case=repr(dict(cls_source=classes[c["cls"]][2], data=c["data"])), observed=repr(o)[:300],
                                        what="depth limit not exact: " + msg))
     subject_tie(res)
+    cycles_suite(res, tier, seed)
     msg, cost_table = strict_cost_check()
     res.cov["leaf_conversions_strict_class_depth_3_6_9_12"] = [c for _, c in cost_table]
     if msg:
